@@ -38,9 +38,9 @@ fn setup(m: &Memfs) {
     let _ = m.mkdir_p("/e");
     // two files that differ in both ids and in the mode: whichever of them is at /d/f, a query sees one of them whole
     let _ = m.chown("/d/f", 7, 7);
-    let _ = m.write_all("/d/h", b"h;");
-    let _ = m.chown("/d/h", 8, 8);
-    let _ = m.chmod("/d/h", 0o500);
+    let _ = m.write_all("/h", b"h;");
+    let _ = m.chown("/h", 8, 8);
+    let _ = m.chmod("/h", 0o500);
 }
 
 static TOKEN: AtomicU64 = AtomicU64::new(1);
@@ -116,9 +116,9 @@ fn alphabet() -> Vec<Op> {
         // metadata queries: the owner is one read of both ids, the predicates derived from the mode one read of it.
         // (chmod / chown themselves are not among the single-step operations of the statement - they snapshot the
         // entries under one guard and apply under another - so the owner and mode changes the queries race against
-        // come from a move that replaces /d/f by the differently owned, differently moded /d/h of the setup)
-        Op::MoveP(s("/d/h"), s("/d/f")),
-        Op::Copy(s("/d/h"), s("/d/f")),
+        // come from a move that replaces /d/f by the differently owned, differently moded /h of the setup (kept outside /d so that the calls that walk /d have no more to walk than before))
+        Op::MoveP(s("/h"), s("/d/f")),
+        Op::Copy(s("/h"), s("/d/f")),
         Op::Owner(s("/d/f")),
         Op::Owner(s("/d/s")),
         Op::Uid(s("/d/f")),
@@ -267,7 +267,7 @@ impl Checker {
         let wit = |detail: String, calls: &[CallRec]| {
             J::obj(vec![
                 ("mode", J::s(mode)),
-                ("setup", J::s("mkdir_p(/d/s); write_all(/d/f, \"0;\"); mkdir_p(/e); chown(/d/f, 7, 7); write_all(/d/h, \"h;\"); chown(/d/h, 8, 8); chmod(/d/h, 0o500)")),
+                ("setup", J::s("mkdir_p(/d/s); write_all(/d/f, \"0;\"); mkdir_p(/e); chown(/d/f, 7, 7); write_all(/h, \"h;\"); chown(/h, 8, 8); chmod(/h, 0o500)")),
                 ("program", J::Arr(program.iter().map(|t| J::Arr(t.iter().map(|o| J::s(o.describe())).collect())).collect())),
                 ("observed", J::Arr(calls.iter().map(|c| J::s(format!("T{}.{} [{}..{}] {} -> {}", c.thread, c.index, c.start, c.end, c.op.describe(), c.res.short()))).collect())),
                 ("final_state", memfs_ntree(snap).to_json()),
@@ -561,7 +561,7 @@ fn c04(ctx: &Ctx, rep: &mut Report) {
     for p in ["/d/f", "/d/g"] {
         let s = |x: &str| x.to_string();
         let other = if p == "/d/f" { "/d/g" } else { "/d/f" };
-        let pool = vec![Op::Remove(s(p)), Op::Symlink(s(p), s(other)), Op::Symlink(s(p), s("/d/missing")), Op::MkdirP(s(p)), Op::Mkfile(s(p)), Op::MoveP(s("/d/h"), s(p)), Op::RemoveAll(s("/d"))];
+        let pool = vec![Op::Remove(s(p)), Op::Symlink(s(p), s(other)), Op::Symlink(s(p), s("/d/missing")), Op::MkdirP(s(p)), Op::Mkfile(s(p)), Op::MoveP(s("/h"), s(p)), Op::RemoveAll(s("/d"))];
         for h in [Op::WriteH(s(p), vec![]), Op::AppendH(s(p), vec![])] {
             for x in &pool {
                 for y in &pool {
